@@ -24,6 +24,7 @@ type stageOv struct {
 	vars map[string]string // subset of {x,y}
 	dir  string            // "" or a directory
 	deps []int
+	fail bool // this stage's execution exits non-zero (the stage allows failure, so the pipeline goes on)
 }
 
 type c08Spec struct {
@@ -58,7 +59,11 @@ func (s c08Spec) line() string {
 		if d == "" {
 			d = "-"
 		}
-		st = append(st, fmt.Sprintf("%s/%s/%s", kvs(o.env), kvs(o.vars), filepath.Base(d)))
+		f := ""
+		if o.fail {
+			f = "!"
+		}
+		st = append(st, fmt.Sprintf("%s/%s/%s%s", kvs(o.env), kvs(o.vars), filepath.Base(d), f))
 	}
 	td := s.taskDir
 	if td == "" {
@@ -68,7 +73,7 @@ func (s c08Spec) line() string {
 }
 
 // the command prints what this execution sees; WHO identifies the stage (set by every stage) or "direct"
-const c08Cmd = `echo "who=${WHO:-direct} A=${A:-} B=${B:-} x={{ if index . "x" }}{{ .x }}{{ end }} y={{ if index . "y" }}{{ .y }}{{ end }} pwd=$(pwd)" >> %s`
+const c08Cmd = `echo "who=${WHO:-direct} A=${A:-} B=${B:-} x={{ if index . "x" }}{{ .x }}{{ end }} y={{ if index . "y" }}{{ .y }}{{ end }} pwd=$(pwd)" >> %s; exit ${FAILSTAGE:-0}`
 
 func expectedSeen(s c08Spec, i int, cwd string) string {
 	get := func(base, ov map[string]string, k string) string {
@@ -113,6 +118,9 @@ func runC08Spec(s c08Spec) (lines []string, crashed string) {
 			for k, v := range o.env {
 				env[k] = v
 			}
+			if o.fail {
+				env["FAILSTAGE"] = "3"
+			}
 			vars := map[string]interface{}{}
 			for k, v := range o.vars {
 				vars[k] = v
@@ -121,7 +129,7 @@ func runC08Spec(s c08Spec) (lines []string, crashed string) {
 			for _, d := range o.deps {
 				deps = append(deps, fmt.Sprintf("s%d", d))
 			}
-			st := map[string]interface{}{"name": fmt.Sprintf("s%d", i), "task": "shared", "env": env, "variables": vars, "depends_on": deps}
+			st := map[string]interface{}{"name": fmt.Sprintf("s%d", i), "task": "shared", "env": env, "variables": vars, "depends_on": deps, "allow_failure": true}
 			if o.dir != "" {
 				st["dir"] = o.dir
 			}
@@ -159,7 +167,10 @@ func runC08Spec(s c08Spec) (lines []string, crashed string) {
 			for k, v := range o.env {
 				env[k] = v
 			}
-			st := &scheduler.Stage{Name: fmt.Sprintf("s%d", i), Task: shared, Env: variables.FromMap(env), Variables: variables.FromMap(o.vars), Dir: o.dir}
+			if o.fail {
+				env["FAILSTAGE"] = "3"
+			}
+			st := &scheduler.Stage{Name: fmt.Sprintf("s%d", i), Task: shared, Env: variables.FromMap(env), Variables: variables.FromMap(o.vars), Dir: o.dir, AllowFailure: true}
 			for _, d := range o.deps {
 				st.DependsOn = append(st.DependsOn, fmt.Sprintf("s%d", d))
 			}
@@ -260,7 +271,7 @@ func c08Case(col *Collector, s c08Spec, tag string) {
 		}
 		if ls := got["who=direct"]; ok && len(ls) == 1 {
 			parts = append(parts, "direct:"+canon(ls[0]))
-			cs.Line = s.line()
+			cs.Line = strings.ReplaceAll(s.line(), "!", "")
 			cs.Impl = strings.Join(parts, "|")
 		}
 	}
@@ -300,6 +311,7 @@ func runC08(col *Collector, tier string, seed int64) {
 			if rng.Intn(3) == 0 {
 				o.dir = dirs[1+rng.Intn(2)]
 			}
+			o.fail = rng.Intn(4) == 0
 			s.stages = append(s.stages, o)
 		}
 		return s
